@@ -21,3 +21,4 @@ def run(model: Model, rep: Report) -> None:
     T.buffer_oblivious(model, rep, "C14-R3", fsm)
     T.positions(model, rep, "C14-R4")
     T.eof_flush(model, rep, "C14-R5")
+    T.state_change_not_in_try(model, rep, "C14-R6")
